@@ -1,6 +1,6 @@
 use crate::{
     common::BinaryOp,
-    syn_utils::{expand_self, expand_self_in_impl_generics},
+    syn_utils::{expand_self, expand_self_in_impl_generics, ref_target},
 };
 use proc_macro2::{Span, TokenStream};
 use quote::quote;
@@ -260,6 +260,7 @@ fn to_rhs(s: &PathSegment, self_ty: &Type) -> Type {
     self_ty.clone()
 }
 fn ref_type(ty: &Type) -> Type {
+    let ty = ref_target(ty);
     parse_quote!(&#ty)
 }
 fn ref_type_with(ty: &Type, is_ref: bool) -> Type {
